@@ -98,6 +98,8 @@ fn base_states() -> Vec<Element<String>> {
         .collect()
 }
 
+const FOLLOW_UPS: &[&str] = &["<a/>", "<b><c/></b>", "<n><z/></n>", "<b/><a x=\"1\"><a/></a>"];
+
 struct Exerciser {
     cfgs: Vec<RCfg>,
     opts: Vec<Options>,
@@ -107,6 +109,26 @@ struct Exerciser {
 impl Exerciser {
     fn new(tier: Tier) -> Exerciser {
         Exerciser { cfgs: reader_configs(tier), opts: option_tuples(), bases: base_states() }
+    }
+
+    /// non-initial states: every value the input produced is extended once more by each follow-up
+    /// document (and rendered), so that a state only this input reaches is also a starting point
+    fn follow_ups(&self, el: &Element<String>, cfg: &RCfg, origin: &str, panics: &mut Vec<String>) -> u64 {
+        let mut calls = 0;
+        for f in FOLLOW_UPS {
+            calls += 1;
+            match subject::guarded(|| subject::extend_reader(el.clone(), f.as_bytes(), cfg)) {
+                Err(p) => panics.push(format!("extend_struct with {} on the result of {}: {}", f, origin, p)),
+                Ok(Ok(e2)) => {
+                    calls += 1;
+                    if let Err(p) = subject::guarded(|| e2.to_serde_struct(&self.opts[0])) {
+                        panics.push(format!("to_serde_struct after {} + extend_struct with {}: {}", origin, f, p));
+                    }
+                }
+                Ok(Err(_)) => {}
+            }
+        }
+        calls
     }
 
     /// run everything C07 names on one input; returns (panic descriptions, calls made)
@@ -124,6 +146,9 @@ impl Exerciser {
                             panics.push(format!("to_serde_struct after into_struct: {}", p));
                         }
                     }
+                    if ci == 0 {
+                        calls += self.follow_ups(&el, cfg, "into_struct", &mut panics);
+                    }
                 }
                 Ok(Err(_)) => {}
             }
@@ -139,6 +164,9 @@ impl Exerciser {
                                 if let Err(p) = subject::guarded(|| el.to_serde_struct(o)) {
                                     panics.push(format!("to_serde_struct after extend_struct: {}", p));
                                 }
+                            }
+                            if ci == 0 {
+                                calls += self.follow_ups(&el, cfg, "extend_struct", &mut panics);
                             }
                         }
                         Ok(Err(_)) => {}
@@ -176,6 +204,47 @@ pub fn tree_inputs(max_nodes: usize) -> Vec<Vec<u8>> {
     for_each_tree(&names, &params, &mut |root| {
         out.push(crate::dom::Doc::from_root(root.clone()).to_xml().into_bytes());
     });
+    // forests: up to four top-level elements (the library accepts them), names from {a, b, n}, each
+    // empty, with a child or with an attribute; with and without leading character data
+    let shapes = ["<N/>", "<N><c/></N>", "<N k=\"v\"></N>"];
+    let names = ["a", "b", "n"];
+    let units: Vec<String> = names.iter().flat_map(|n| shapes.iter().map(move |s| s.replace('N', n))).collect();
+    for len in 2..=4usize {
+        // shapes other than the empty one are allowed for one element only (keeps the list small)
+        let empties: Vec<&String> = units.iter().step_by(shapes.len()).collect();
+        let mut idx = vec![0usize; len];
+        loop {
+            for special in 0..=len {
+                let variants: Vec<&String> = if special == len { vec![&units[0]] } else { units.iter().filter(|u| u.starts_with(&format!("<{}", names[idx[special]]))).skip(1).collect() };
+                for v in variants {
+                    let mut doc = String::new();
+                    for (i, ni) in idx.iter().enumerate() {
+                        if i == special {
+                            doc.push_str(v);
+                        } else {
+                            doc.push_str(empties[*ni]);
+                        }
+                    }
+                    out.push(doc.clone().into_bytes());
+                    if special == len {
+                        out.push(format!("t{}", doc).into_bytes());
+                    }
+                }
+            }
+            let mut k = 0;
+            while k < len {
+                idx[k] += 1;
+                if idx[k] < names.len() {
+                    break;
+                }
+                idx[k] = 0;
+                k += 1;
+            }
+            if k == len {
+                break;
+            }
+        }
+    }
     out
 }
 
